@@ -18,6 +18,12 @@
      pre_ok D     (Proofs/C09Run.v) the contract of SnfCalc::preprocess: when the dictionary has an LLL-HNF
                   preprocessing it returns H = P*A with P*Pinv = I = Pinv*P (property C10's unimodularity
                   theorem); [True] for dictionaries without preprocessing.
+     norm_laws D  (Proofs/C09Term.v; termination only) the Euclidean function is >= 1 on non-zero elements and at
+                  least doubles under multiplication by a non-zero non-unit; `%` vanishes on multiples; `inv` finds
+                  every inverse.  gcdx_total D: EucRing::gcdx returns.  Both proved below for Z, Z[i], Z[omega]
+                  and every field dictionary.
+     pre_total D  (Proofs/C09Elim.v) the preprocessing returns (termination of lll_hnf, property C10); [True] for
+                  dictionaries without preprocessing.
    [snf_with fp D A flags] is the run with fuel policy [fp] for the two loops ([snf] uses [default_fuel]);
    all "whenever the run returns Some" theorems hold for EVERY fuel policy.  [get] = [lget (ed_ring D)] is the
    entry function of a list matrix, [wf m n A] says A has m rows of length n; matrix identities are those of
@@ -28,7 +34,8 @@ From Coq Require Import ZArith Arith List Bool.
 Require Import Yui.Base.Ring Yui.Base.MatF Yui.Base.MatL Yui.Model.Snf.
 Require Yui.Model.HomologyCalc.
 Require Import Yui.Proofs.C09Mat Yui.Proofs.C09Inv Yui.Proofs.C09Run Yui.Proofs.C09Exit Yui.Proofs.C09Diag
-  Yui.Proofs.C09Total Yui.Proofs.C09Laws Yui.Proofs.C09Check Yui.Proofs.C09Term Yui.Proofs.C09Contract.
+  Yui.Proofs.C09Total Yui.Proofs.C09Laws Yui.Proofs.C09Check Yui.Proofs.C09Term Yui.Proofs.C09Elim
+  Yui.Proofs.C09Quad Yui.Proofs.C09Contract.
 Require Import Yui.Proofs.C07Calc.
 Import ListNotations.
 
@@ -96,14 +103,8 @@ Theorem C09_exit :
 Proof. exact @snf_exit. Qed.
 Print Assumptions C09_exit.
 
-(* ---------- the whole contract of one call, "whenever the run returns Some" ----------
-   Full statement (NOT proved): for every A the call returns Some (the two loops of SnfCalc terminate within
-   the default fuel and no panic is reachable).  Proved: the restart loop of diag_normalize terminates within
-   the default fuel ([C09_diag_normalize_terminates]); the integer extended gcd terminates
-   ([C09_Z_gcdx_total]).  Missing: the while loop of eliminate_at (the pivot's norm decreases
-   lexicographically with the number of non-zero entries; the "Detect endless loop" panic is unreachable),
-   the generic EucRing::gcdx loop over Z[i], Z[omega], and the LLL loops of the preprocessing (C10).
-   The correspondence run records that the fuel never ran out on any explored input. *)
+(* ---------- the whole contract of one call, for EVERY fuel policy: "whenever the run returns Some" ----------
+   (the `_partial` form; the run with the default fuel is proved to return in [C09_total] below) *)
 Theorem C09_total_partial :
   forall (R : Type) (D : euc_dict R), snf_laws D -> pre_ok D ->
   forall (fp : fuel_policy R) (m n : nat) (A : lmat R) (f1 f2 f3 f4 : bool) (res : snf_result R),
@@ -138,10 +139,21 @@ Theorem C09_spec_meaning :
 Proof. intros. reflexivity. Qed.
 Print Assumptions C09_spec_meaning.
 
-(* ---------- termination of diag_normalize within the default fuel ----------
-   [norm_laws D]: the Euclidean function is positive on non-zero elements and at least doubles under
-   multiplication by a non-zero non-unit; `%` vanishes on multiples; [gcdx_total D]: EucRing::gcdx returns.
-   On a rank-r diagonal target (what eliminate_all leaves, [DiagR]) diag_normalize returns [Some]. *)
+(* ---------- termination within the default fuel, no panic ----------
+   The fuel of [snf] is default_fuel: 2*log2 N(pivot) + 4 iterations for the while loop of eliminate_at,
+   1 + sum_k (1 + log2 N(d_0*...*d_k)) passes for the restart loop of diag_normalize. *)
+
+(* the while loop of eliminate_at at a non-zero pivot (i, i): it returns - in particular the
+   "Detect endless loop" panic is unreachable and every division is by a non-zero gcd *)
+Theorem C09_eliminate_at_terminates :
+  forall (R : Type) (D : euc_dict R), snf_laws D -> norm_laws D -> gcdx_total D ->
+  forall (m n i : nat), i < m -> i < n ->
+  forall s : state R, wf m n (st_t s) -> lget (ed_ring D) (st_t s) i i <> rzero (ed_ring D) ->
+  exists s', eliminate_at D (default_fuel D) m n i i s = Some s'.
+Proof. exact @eliminate_at_total. Qed.
+Print Assumptions C09_eliminate_at_terminates.
+
+(* the restart loop of diag_normalize on a rank-r diagonal target (what eliminate_all leaves, [DiagR]) *)
 Theorem C09_diag_normalize_terminates :
   forall (R : Type) (D : euc_dict R), snf_laws D -> norm_laws D -> gcdx_total D ->
   forall (m n r : nat) (s : state R),
@@ -149,6 +161,65 @@ Theorem C09_diag_normalize_terminates :
   exists s', diag_normalize D (default_fuel D) m n s = Some s'.
 Proof. exact @diag_normalize_total. Qed.
 Print Assumptions C09_diag_normalize_terminates.
+
+(* the call returns *)
+Theorem C09_terminates :
+  forall (R : Type) (D : euc_dict R),
+  snf_laws D -> norm_laws D -> gcdx_total D -> pre_ok D -> pre_total D ->
+  forall (m n : nat) (A : lmat R) (fl : bool * bool * bool * bool),
+  wf m n A -> exists res, snf D (mk_dmat m n A) fl = Some res.
+Proof. exact @snf_terminates. Qed.
+Print Assumptions C09_terminates.
+
+(* ---------- the property: the call returns and its result meets the whole contract ----------
+   Relative to the preprocessing (pre_ok, pre_total = property C10 for lll_hnf) only; the other hypotheses are
+   theorems for the supported rings, so for the dictionaries without preprocessing the statement is closed:
+   [C09_total_Z] (the i32 dictionary; i64/i128/BigInt are the same dictionary behind the LLL preprocessing),
+   [C09_total_gauss], [C09_total_eisen], [C09_total_Q], [C09_total_F2], [C09_total_Fp]. *)
+Theorem C09_total :
+  forall (R : Type) (D : euc_dict R),
+  snf_laws D -> norm_laws D -> gcdx_total D -> pre_ok D -> pre_total D ->
+  forall (m n : nat) (A : lmat R) (f1 f2 f3 f4 : bool), wf m n A ->
+  exists res, snf D (mk_dmat m n A) (f1, f2, f3, f4) = Some res /\ snf_spec D m n A f1 f2 f3 f4 res.
+Proof. exact @snf_total. Qed.
+Print Assumptions C09_total.
+
+Theorem C09_total_Z :
+  forall (m n : nat) (A : lmat Z) (f1 f2 f3 f4 : bool), wf m n A ->
+  exists res, snf Z_dict (mk_dmat m n A) (f1, f2, f3, f4) = Some res /\ snf_spec Z_dict m n A f1 f2 f3 f4 res.
+Proof. exact Z_snf_total. Qed.
+Print Assumptions C09_total_Z.
+
+Theorem C09_total_gauss :
+  forall (m n : nat) (A : lmat quad) (f1 f2 f3 f4 : bool), wf m n A ->
+  exists res, snf gauss_dict (mk_dmat m n A) (f1, f2, f3, f4) = Some res /\ snf_spec gauss_dict m n A f1 f2 f3 f4 res.
+Proof. exact gauss_snf_total. Qed.
+Print Assumptions C09_total_gauss.
+
+Theorem C09_total_eisen :
+  forall (m n : nat) (A : lmat quad) (f1 f2 f3 f4 : bool), wf m n A ->
+  exists res, snf eisen_dict (mk_dmat m n A) (f1, f2, f3, f4) = Some res /\ snf_spec eisen_dict m n A f1 f2 f3 f4 res.
+Proof. exact eisen_snf_total. Qed.
+Print Assumptions C09_total_eisen.
+
+Theorem C09_total_Q :
+  forall (m n : nat) (A : lmat Qcanon.Qc) (f1 f2 f3 f4 : bool), wf m n A ->
+  exists res, snf Q_dict (mk_dmat m n A) (f1, f2, f3, f4) = Some res /\ snf_spec Q_dict m n A f1 f2 f3 f4 res.
+Proof. exact Q_snf_total. Qed.
+Print Assumptions C09_total_Q.
+
+Theorem C09_total_F2 :
+  forall (m n : nat) (A : lmat bool) (f1 f2 f3 f4 : bool), wf m n A ->
+  exists res, snf F2_dict (mk_dmat m n A) (f1, f2, f3, f4) = Some res /\ snf_spec F2_dict m n A f1 f2 f3 f4 res.
+Proof. exact F2_snf_total. Qed.
+Print Assumptions C09_total_F2.
+
+Theorem C09_total_Fp :
+  forall p : Z, Znumtheory.prime p ->
+  forall (m n : nat) (A : lmat (fp p)) (f1 f2 f3 f4 : bool), wf m n A ->
+  exists res, snf (fp_dict p) (mk_dmat m n A) (f1, f2, f3, f4) = Some res /\ snf_spec (fp_dict p) m n A f1 f2 f3 f4 res.
+Proof. exact fp_snf_total. Qed.
+Print Assumptions C09_total_Fp.
 
 (* ---------- the hypotheses hold for the supported rings ---------- *)
 Theorem C09_laws_Z : forall pre : option (preproc Z), snf_laws (Zpre_dict pre).
@@ -162,6 +233,23 @@ Print Assumptions C09_Z_gcdx_total.
 Theorem C09_term_laws_Z : forall pre : option (preproc Z), norm_laws (Zpre_dict pre) /\ gcdx_total (Zpre_dict pre).
 Proof. exact Zpre_term_laws. Qed.
 Print Assumptions C09_term_laws_Z.
+
+Theorem C09_term_laws_gauss : forall pre : option (preproc quad),
+  norm_laws (gausspre_dict pre) /\ gcdx_total (gausspre_dict pre).
+Proof. exact gauss_term_laws. Qed.
+Print Assumptions C09_term_laws_gauss.
+
+Theorem C09_term_laws_eisen : forall pre : option (preproc quad),
+  norm_laws (eisenpre_dict pre) /\ gcdx_total (eisenpre_dict pre).
+Proof. exact eisen_term_laws. Qed.
+Print Assumptions C09_term_laws_eisen.
+
+Theorem C09_term_laws_field :
+  forall (F : Type) (o : ring_ops F) (finv : F -> F), ring_laws o -> rone o <> rzero o ->
+  (forall a, a <> rzero o -> rmul o a (finv a) = rone o) ->
+  norm_laws (field_dict o finv) /\ gcdx_total (field_dict o finv).
+Proof. exact @field_term_laws. Qed.
+Print Assumptions C09_term_laws_field.
 
 Theorem C09_laws_gauss : forall pre : option (preproc quad), snf_laws (gausspre_dict pre).
 Proof. exact gauss_snf_laws. Qed.
@@ -246,7 +334,10 @@ Print Assumptions C09_checker_shape.
    associate of the gcd of the k x k minors of A (uniqueness of the invariant factors; CoqEAL
    [Smith_gcdr_spec]).  Not proved here; the executable reference [chk_minors] (gcd of all minors by Laplace
    expansion) is evaluated on the implementation's output for every small case of the correspondence run -
-   validation of individual outputs only. *)
+   validation of individual outputs only.
+   For the dictionaries with LLL-HNF preprocessing (i64, i128, BigInt, Z[i] / Z[omega] over i64 and BigInt)
+   [C09_total] keeps the two premises pre_ok (H = P*A, P invertible) and pre_total (lll_hnf returns) about
+   Model/Lll.v; they are property C10's.  Polynomial rings Q[x], F_p[x] are not modelled. *)
 
 (* ---------- non-vacuity: the hypotheses are met by concrete non-trivial runs ---------- *)
 Open Scope Z_scope.
